@@ -1077,8 +1077,24 @@ def _custom_domain_rules():
     return [pattern.RewriteRule(pat, rep)]
 
 
+def _two_node_rules():
+    """Neg(Neg(x)) -> Identity(Identity(x)): a replacement with an intermediate value that the tape has to name"""
+    from onnxscript.rewriter import pattern
+
+    def pat(op, x):
+        return op.Neg(op.Neg(x))
+
+    def rep(op, x, **_):
+        return op.Identity(op.Identity(x))
+
+    return [pattern.RewriteRule(pat, rep)]
+
+
 def _apply_family_variant(name, m):
     from onnxscript import rewriter
+
+    if name == "rewrite_two_node":
+        return rewriter.rewrite(m, _two_node_rules())
 
     if name == "rewrite_bias_gelu":
         from onnxscript.rewriter.ort_fusions.bias_gelu import bias_gelu_rules
@@ -1217,6 +1233,106 @@ def family_models(ctx):
             variants = ["rewrite_bias_gelu" if body_name == "gelu" else "rewrite_custom_domain", "optimize", "rewrite"]
             # the custom-domain operator has no kernel: its result is judged structurally only
             out.append((f"newdom_{body_name}_{where}", m.SerializeToString(), feeds3(), variants, body_name == "gelu"))
+    # ---- consecutive Transposes of rank 3 / 4 whose permutations do not commute (TransposeTranspose composes them)
+    perms3 = [[0, 1, 2], [0, 2, 1], [1, 0, 2], [1, 2, 0], [2, 0, 1], [2, 1, 0]]
+    pairs = [(p, q) for p in perms3 for q in perms3 if p != perms3[0] and q != perms3[0]]
+    if ctx.quick:
+        pairs = [([1, 0, 2], [0, 2, 1]), ([0, 2, 1], [1, 0, 2]), ([1, 2, 0], [1, 0, 2]), ([2, 0, 1], [2, 0, 1]), ([1, 2, 0], [2, 0, 1]), ([2, 1, 0], [1, 2, 0])]
+    pairs = [(p, q, [2, 3, 4]) for p, q in pairs] + [([1, 0, 3, 2], [0, 2, 1, 3], [2, 3, 4, 5]), ([3, 0, 1, 2], [1, 0, 2, 3], [2, 3, 4, 5])]
+    for p1, p2, shp in pairs:
+        for dt, npdt in ((T.FLOAT, np.float32), (T.INT64, np.int64)):
+            if ctx.quick and dt == T.INT64 and len(shp) == 3 and p1 != [1, 0, 2]:
+                continue
+            nodes = [h.make_node("Transpose", ["x"], ["t1"], perm=p1), h.make_node("Transpose", ["t1"], ["t2"], perm=p2), h.make_node("Abs", ["t2"], ["z"])]
+            g = h.make_graph(nodes, "tt", [h.make_tensor_value_info("x", dt, shp)], [h.make_tensor_value_info("z", dt, [None] * len(shp))])
+            m = h.make_model(g, opset_imports=[h.make_opsetid("", 18)])
+            m.ir_version = 9
+            n = int(np.prod(shp))
+            fd = [{"x": np.arange(n).reshape(shp).astype(npdt)}, {"x": (np.arange(n)[::-1] - 7).reshape(shp).astype(npdt)}]
+            out.append((f"transpose_pair_{''.join(map(str, p1))}_{''.join(map(str, p2))}_{'f' if dt == T.FLOAT else 'i'}", m.SerializeToString(), fd,
+                        ["optimize", "rewrite", "optimize_ir_i1_noinf"], True))
+
+    # ---- an If with a constant condition whose taken branch returns one of its OWN initializers directly
+    #      (also: after a first optimize() folded the branch body while the condition was still dynamic)
+    for cond_kind in ("const_node", "initializer"):
+        for taken in ("then", "else"):
+            wvi = h.make_tensor_value_info("w", T.FLOAT, [3])
+            own = h.make_graph([], "own", [], [wvi], [nh.from_array(np.array([1.5, -2.0, 4.0], np.float32), "w")])
+            oth = h.make_graph([h.make_node("Neg", ["x"], ["nx"])], "oth", [], [h.make_tensor_value_info("nx", T.FLOAT, [3])])
+            tb, eb = (own, oth) if taken == "then" else (oth, own)
+            cval = np.array(taken == "then")
+            pre, inits = [], []
+            if cond_kind == "const_node":
+                pre = [h.make_node("Constant", [], ["c"], value=nh.from_array(cval, "c"))]
+            else:
+                inits = [nh.from_array(cval, "c")]
+            nodes = pre + [h.make_node("If", ["c"], ["r"], then_branch=tb, else_branch=eb), h.make_node("Add", ["r", "x"], ["z"])]
+            g = h.make_graph(nodes, "ifown", [h.make_tensor_value_info("x", T.FLOAT, [3])], [h.make_tensor_value_info("z", T.FLOAT, [3])], inits)
+            m = h.make_model(g, opset_imports=[h.make_opsetid("", 18)])
+            m.ir_version = 9
+            fd = [{"x": f32(3)}, {"x": np.zeros(3, np.float32)}]
+            out.append((f"if_branch_returns_own_initializer_{cond_kind}_{taken}", m.SerializeToString(), fd,
+                        ["optimize", "fold_constants", "optimize_ir_i1_noinf", "fold_constants_ir_inf_shouldfold"], True))
+
+    # ---- an overridable initializer-input (default the caller may override) read INSIDE a nested graph by a node
+    #      whose other operands are constants: it must not be folded, with and without an override value
+    for where in ("then", "else", "loop", "if_in_if"):
+        two = nh.from_array(np.array([2.0, 2.0, 2.0], np.float32), "two")
+        body = [h.make_node("Mul", ["w", "two"], ["w2"]), h.make_node("Add", ["w2", "x"], ["zi"])]
+        zi = h.make_tensor_value_info("zi", T.FLOAT, [3])
+        ins = [h.make_tensor_value_info("x", T.FLOAT, [3]), h.make_tensor_value_info("cond", T.BOOL, []), h.make_tensor_value_info("w", T.FLOAT, [3])]
+        winit = nh.from_array(np.array([1.0, 2.0, 3.0], np.float32), "w")
+        if where in ("then", "else"):
+            nodes = [_wrap_if(body, [two], h.make_tensor_value_info("z", T.FLOAT, [3]), "cond", where, [h.make_node("Neg", ["x"], ["nx"])], "ov_")]
+            ginits = [winit]
+        elif where == "if_in_if":
+            inner = _wrap_if(body, [two], zi, "cond", "then", [h.make_node("Neg", ["x"], ["nx"])], "ovi_")
+            tb = h.make_graph([inner, h.make_node("Identity", ["zi"], ["zo"])], "outer_t", [], [h.make_tensor_value_info("zo", T.FLOAT, [3])])
+            eb = h.make_graph([h.make_node("Abs", ["x"], ["ax"])], "outer_e", [], [h.make_tensor_value_info("ax", T.FLOAT, [3])])
+            nodes = [h.make_node("If", ["cond"], ["z"], then_branch=tb, else_branch=eb)]
+            ginits = [winit]
+        else:
+            lb = h.make_graph([h.make_node("Mul", ["w", "two"], ["w2"]), h.make_node("Add", ["w2", "ls"], ["lso"]), h.make_node("Identity", ["lc"], ["lco"])], "body",
+                              [h.make_tensor_value_info("li", T.INT64, []), h.make_tensor_value_info("lc", T.BOOL, []), h.make_tensor_value_info("ls", T.FLOAT, [3])],
+                              [h.make_tensor_value_info("lco", T.BOOL, []), h.make_tensor_value_info("lso", T.FLOAT, [3])], [two])
+            nodes = [h.make_node("Loop", ["trip", "cond", "x"], ["z"], body=lb)]
+            ginits = [winit, nh.from_array(np.array(2, np.int64), "trip")]
+        g = h.make_graph(nodes, f"ovr_{where}", ins, [h.make_tensor_value_info("z", T.FLOAT, [3])], ginits)
+        m = h.make_model(g, opset_imports=[h.make_opsetid("", 18)])
+        m.ir_version = 9
+        ovr = np.array([10.0, -20.0, 0.5], np.float32)
+        fd = [{"x": f32(3), "cond": np.array(True)}, {"x": f32(3), "cond": np.array(True), "w": ovr}, {"x": f32(3), "cond": np.array(False), "w": ovr}]
+        out.append((f"overridable_input_read_in_{where}", m.SerializeToString(), fd,
+                    ["optimize", "fold_constants", "fold_constants_ir_inf_shouldfold", "optimize_i3_nostop_in0"], True))
+
+    # ---- every rule application happens inside nested graphs, the replacement has an intermediate value, and the
+    #      enclosing graph already uses the names a fresh tape would generate (val_0, val_1): names must stay unique
+    for where in ("then", "both", "loop"):
+        def mm(p, src):   # MatMul(x, A) + B  ->  Gemm ; Reshape(Reshape) -> two-node replacements exist in the default set too
+            return [h.make_node("Transpose", [src], [p + "t1"], perm=[1, 0]), h.make_node("Transpose", [p + "t1"], [p + "t2"], perm=[1, 0]),
+                    h.make_node("Neg", [p + "t2"], [p + "n1"]), h.make_node("Neg", [p + "n1"], [p + "n2"])]
+        xvi2 = h.make_tensor_value_info("x", T.FLOAT, [2, 3])
+        pre = [h.make_node("Abs", ["x"], ["val_0"]), h.make_node("Relu", ["val_0"], ["val_1"])]
+        z2 = h.make_tensor_value_info("z", T.FLOAT, [2, 3])
+        if where == "then":
+            nodes = pre + [_wrap_if(mm("a_", "val_1"), [], z2, "cond", "then", [h.make_node("Abs", ["val_0"], ["b_a"])], "nf_")]
+        elif where == "both":
+            a, b = mm("a_", "val_1"), mm("b_", "val_0")
+            tb = h.make_graph(a, "t", [], [h.make_tensor_value_info(a[-1].output[0], T.FLOAT, [2, 3])])
+            eb = h.make_graph(b, "e", [], [h.make_tensor_value_info(b[-1].output[0], T.FLOAT, [2, 3])])
+            nodes = pre + [h.make_node("If", ["cond"], ["z"], then_branch=tb, else_branch=eb)]
+        else:
+            b = mm("l_", "ls")
+            lb = h.make_graph(b + [h.make_node("Identity", ["lc"], ["lco"])], "body",
+                              [h.make_tensor_value_info("li", T.INT64, []), h.make_tensor_value_info("lc", T.BOOL, []), h.make_tensor_value_info("ls", T.FLOAT, [2, 3])],
+                              [h.make_tensor_value_info("lco", T.BOOL, []), h.make_tensor_value_info(b[-1].output[0], T.FLOAT, [2, 3])])
+            nodes = pre + [h.make_node("Loop", ["trip", "ctrue", "val_1"], ["z"], body=lb)]
+        inits = [nh.from_array(np.array(2, np.int64), "trip"), nh.from_array(np.array(True), "ctrue")] if where == "loop" else []
+        g = h.make_graph(nodes, f"nest_{where}", [xvi2, h.make_tensor_value_info("cond", T.BOOL, [])], [z2], inits)
+        m = h.make_model(g, opset_imports=[h.make_opsetid("", 20)])
+        m.ir_version = 9
+        fd = [{"x": f32(2, 3, lo=-3, hi=3), "cond": np.array(c)} for c in (True, False)]
+        out.append((f"rewrites_only_in_nested_{where}", m.SerializeToString(), fd, ["rewrite", "rewrite_pass_ir", "rewrite_two_node", "optimize"], True))
     rng.shuffle(out)
     return out
 
